@@ -20,6 +20,10 @@ PROPS = {
             {"pkg": "qa", "world": "qa",
              "quick": {"runs": 6000, "max_wall_s": 120, "minimise_s": 20},
              "thorough": {"runs": 400000, "max_wall_s": 1500, "minimise_s": 60}},
+            # Q-B: the real SMTP/LMTP forwarding target against a scripted misbehaving server
+            {"pkg": "qa", "world": "qb", "seed_salt": 0xb,
+             "quick": {"runs": 3000, "max_wall_s": 120, "minimise_s": 20},
+             "thorough": {"runs": 200000, "max_wall_s": 1500, "minimise_s": 60}},
         ],
     },
     "C02": {
@@ -142,6 +146,18 @@ PROPS = {
              "thorough": {"runs": 120000, "max_wall_s": 1500, "minimise_s": 60}},
         ],
     },
+    "C09": {
+        "level": "exploration",
+        "rule": "one run = the real queue over the real target.smtp / target.lmtp (smtp_downstream + smtpconn + go-smtp client) against a scripted server (SMTPUTF8 on/off, per-stage temporary/permanent replies, lost final reply, LMTP connection drop between statuses, refused connection), 1-2 messages x 1-3 recipients (ASCII, IDN U-label and A-label, non-ASCII local part, mixed case), up to 3 attempts; a monitor between queue and target checks every BodyNonAtomic call: exactly one SetStatus per accepted recipient under the AddRcpt spelling, none foreign, none late; non-trivial = a fault fired",
+        "real": ["internal/target/smtp (target.smtp, target.lmtp)", "internal/smtpconn", "go-smtp client", "internal/target/queue (as the caller)"],
+        "stub": ["next-hop server (ScriptedMX over simnet)", "disk (simfs)", "bounce target"],
+        "assumptions": COMMON_ASSUME + ["the remote target (connection reuse histories) and the pipeline's rewritten-recipient clause are covered only where the RM/pipeline parts are listed in this entry"],
+        "parts": [
+            {"pkg": "qa", "world": "qb", "seed_salt": 0x9,
+             "quick": {"runs": 4000, "max_wall_s": 120, "minimise_s": 20},
+             "thorough": {"runs": 300000, "max_wall_s": 1500, "minimise_s": 60}},
+        ],
+    },
 }
 
 # ---------------------------------------------------------------- manifest metadata
@@ -191,6 +207,10 @@ META = {
             "design_ref": "DESIGN.md section 6 (C14)",
             "level_text": "Seeded exploration of account histories with a map-based reference model; PLAIN and LOGIN are compared on identical credentials including the identity recorded for the session; concurrent histories are checked for linearizability (Unknown results are counted, never reported).",
             "level_note": "Credential storage is a stub table; bcrypt cost 10 of SetUserPassword bounds the number of histories per minute."},
+    "C09": {"technique": "deterministic simulation: real forwarding targets against a scripted misbehaving next hop over a simulated network, status-collector contract monitor at the target boundary",
+            "design_ref": "DESIGN.md section 6 (C09)",
+            "level_text": "Seeded exploration of recipient spellings x server capabilities x per-stage failures; the monitor checks the per-recipient result contract on every call.",
+            "level_note": "Next hop is scripted; see the evidence for which target kinds a run covered."},
 }
 
 NOT_APPLICABLE = [
